@@ -61,6 +61,17 @@ for _kn, _decl, _val in _KINDS:
         EXPECT.append({"src": "%s\nfunc pick() { probe(\"p\"); return %s }\nfunc pick2() { probe(\"p2\"); return %s }\n%s\nnil" % (_decl, _val, _val, _stmt), "field": "trace",
                        "want": _want, "finding": None, "why": "%s: the right-hand side yields %s and is evaluated exactly once" % (_form, _kn)})
 
+# assignment targets: the operands of the target are evaluated once, too (after the right-hand side)
+_TGT = "m = {\"x\": [0]}; a = [\"ab\"]\nfunc gm() { probe(\"m\"); return m }\nfunc ga() { probe(\"a\"); return a }\nfunc gk() { probe(\"k\"); return \"x\" }\nfunc gi(n) { probe(\"i\"); return n }\nfunc gv(x) { probe(\"v\"); return x }\n"
+for _stmt, _want, _find, _why in (
+        ("gm()[gk()][gi(0)] = gv(5)", "(s:76);(s:6d);(s:6b);(s:69)", None, "a store into an existing slot of a list reached through a map entry"),
+        ("gm()[gk()] = gv(5)", "(s:76);(s:6d);(s:6b)", None, "a store into a map entry"),
+        ("ga()[gi(0)] = gv(\"z\")", "(s:76);(s:61);(s:69)", None, "a store into a list slot"),
+        ("gm()[gk()][gi(1)] = gv(5)", "(s:76);(s:6d);(s:6b);(s:69)", "store-back-reevaluates-target", "a store at index len (the list grows and is stored back) through a map entry"),
+        ("ga()[gi(0)][gi(1)] = gv(\"Z\")", "(s:76);(s:61);(s:69);(s:69)", "store-back-reevaluates-target", "a store into a character of a string held in a list slot (the new string is stored back)"),
+        ("ga()[gi(0)][gi(2)] = gv(\"Z\")", "(s:76);(s:61);(s:69);(s:69)", "store-back-reevaluates-target", "an append to a string held in a list slot")):
+    EXPECT.append({"src": _TGT + _stmt + "\nnil", "field": "trace", "want": _want, "finding": _find, "why": "assignment target: " + _why + " evaluates the operands of the target exactly once"})
+
 
 def run(tier, seed, replay=None):
     return interpcheck.run_interp_check(
